@@ -483,6 +483,18 @@ func (m *Matcher) match(pattern interface{}, fact interface{}, bindings Bindings
 			}
 			binding, found := bs[vv]
 			if found {
+				if s, is := binding.(string); is && m.IsVariable(s) {
+					// The bound value is itself a variable
+					// name.  It was taken from a message, so
+					// it is data: compare it literally.
+					// (Using it as a pattern would look it
+					// up again, without end when it is bound
+					// to itself.)
+					if fs, is := fact.(string); is && fs == s {
+						return []Bindings{bs}, nil
+					}
+					return nil, nil
+				}
 				return m.match(binding, fact, bindings)
 			} else {
 				// add new binding
